@@ -686,6 +686,10 @@ def named_recipes():
         # new_variable() without a label (label is documented as optional)
         ('unlabelled-variable', [['var', None], ['cl', [1]], ['cl', [-1]]]),
         ('unlabelled-variable', [['var', 'X'], ['var', None], ['cl', [1, -2]]]),
+        # labels with characters a reader may take for a line break
+        ('names-linebreak', [['var', 'a\rb'], ['var', 'c'], ['cl', [1, -2]]]),
+        ('names-linebreak', [['var', 'a\n+1 x1 >= 1 ;'], ['var', 'c\r+1 x2 >= 1 ;'], ['cl', [1, -2]]]),
+        ('names-linebreak', [['var', 'a\x0cb'], ['var', 'c\x1dd'], ['var', 'e\r\nf'], ['cl', [1, -2, 3]]]),
         # other variable groups (names through all_variable_labels)
         ('named-vars', [['group', 'comb', [4, 2]], ['cl', [1, -6]], ['cl', [-3, 4, 5]]]),
         ('named-vars', [['group', 'perm', [3, 2]], ['cl', [1, -6]], ['cl', [-3, 4]]]),
@@ -781,6 +785,14 @@ def header_recipes():
         ('header-newline', 'first line\nsecond line', []),
         ('header-newline', 'fields', [['hdr', 'note', 'a\nb']]),
         ('header-newline', 'fields', [['hdr', 'note', 'a\n+1 x1 >= 1']]),
+        # every character str.splitlines() or a text-mode reader takes for a line break
+        ('header-newline', 'old Mac\rline break', []),
+        ('header-newline', 'fields', [['hdr', 'note', 'a\r+1 x1 >= 1']]),
+        ('header-newline', 'fields', [['hdr', 'note', 'a\r\n+1 x2 >= 1 ;']]),
+        ('header-newline', 'fields', [['hdr', 'note', 'a\x0c+1 x1 >= 1'], ['hdr', 'n2', 'a\x0b+1 x1 >= 1']]),
+        ('header-newline', 'fields', [['hdr', 'note', 'a\x1c+1 x1 >= 1'], ['hdr', 'n2', 'a\x1e+1 x1 >= 1']]),
+        ('header-newline', 'fields', [['hdr', 'note', 'a\x85+1 x1 >= 1'], ['hdr', 'n2', 'a\u2028+1 x1 >= 1']]),
+        ('header-newline', 'fields', [['hdr', 'a\rb', 'value'], ['hdr', 'trailing', 'cr\r']]),
     ]
     for tag, desc, hdr in variants:
         for cls in ('CNF', 'OPB'):
